@@ -91,7 +91,12 @@ def enumerate_sites(F, roots):
                     # `v.split_at(mid)` is the range index `v[..mid]` / `v[mid..]` under another name: the same kind of site
                     out.append((b, bi, 'index', 'split_at of %s' % root_name(fl, t['args'][0]), None))
                 elif c in PANICKY_STD:
-                    out.append((b, bi, 'std-panics', '%s (%s) on %s' % (c.split('::')[-1], PANICKY_STD[c], root_name(fl, t['args'][0])), None))
+                    why_ = None
+                    if c.endswith('copy_from_slice') or c.endswith('clone_from_slice'):
+                        n1, n2 = static_slice_len(fl, t['args'][0]), static_slice_len(fl, t['args'][1])
+                        if n1 is not None and n1 == n2:
+                            why_ = 'both sides have the static length %d' % n1
+                    out.append((b, bi, 'std-panics', '%s (%s) on %s' % (c.split('::')[-1], PANICKY_STD[c], root_name(fl, t['args'][0])), why_))
     return out, graph
 
 
@@ -165,7 +170,67 @@ def describe_assert(fl, b, bi, t):
     return msg, None
 
 
+def _arr_len(ty):
+    m = re.search(r'\[[^\[\];]+; *(\d+)\]$', (ty or '').strip())
+    return int(m.group(1)) if m and re.match(r'^(&(mut )?)*\[', ty.strip()) else None
+
+
+def const_range(fl, op):
+    """(start, end) of a `a..b` / `..b` range aggregate with constant bounds, else None (open ends are None)"""
+    b = fl.body
+    for o in fl.origins(op):
+        if o.kind == 'agg' and str(o.key).startswith('std::ops::Range') and o.bb is not None:
+            for st in b.blocks[o.bb]['stmts']:
+                rv = st['rv']
+                if rv['k'] == 'agg' and str(rv.get('adt', '')).startswith('std::ops::Range') and all(x['k'] == 'const' and isinstance(x.get('v'), int) for x in rv['ops']):
+                    f = dict(zip(rv.get('fields') or [], [x['v'] for x in rv['ops']]))
+                    if rv['adt'].endswith('RangeInclusive'):
+                        return None
+                    return (f.get('start', 0), f.get('end'))
+    return None
+
+
+def static_slice_len(fl, op, depth=0):
+    """number of elements of a slice / array operand when the code fixes it: an array type, an unsized array, or a constant
+    range of a fixed-size array"""
+    b = fl.body
+    if op['k'] == 'const' or depth > 8:
+        return None
+    l = op['p']['l']
+    n = _arr_len(b.local_ty(l)) if not [e for e in op['p']['proj'] if e != 'deref'] else None
+    if n is not None:
+        return n
+    ds = fl.defs.get(l, [])
+    if len(ds) != 1:
+        return None
+    bb, idx, kind, data, dproj = ds[0]
+    if kind == 'assign':
+        if data['k'] in ('use', 'cast') and data['ops'][0]['k'] != 'const':
+            return static_slice_len(fl, data['ops'][0], depth + 1)
+        if data['k'] == 'ref':
+            return static_slice_len(fl, {'k': 'copy', 'p': data['p']}, depth + 1)
+        return None
+    c = callee(data) or ''
+    if c in INDEXERS and len(data['args']) >= 2:
+        base_n = static_slice_len(fl, data['args'][0], depth + 1)
+        rg = const_range(fl, data['args'][1])
+        if base_n is not None and rg is not None:
+            a_, e_ = rg[0] or 0, rg[1] if rg[1] is not None else base_n
+            if 0 <= a_ <= e_ <= base_n:
+                return e_ - a_
+    if c in ('std::ops::Deref::deref', 'std::ops::DerefMut::deref_mut', 'std::convert::AsRef::as_ref', 'std::borrow::Borrow::borrow') and data['args']:
+        return static_slice_len(fl, data['args'][0], depth + 1)
+    return None
+
+
 def describe_index(fl, b, bi, t):
+    # a constant range of a fixed-size array: `buf[4..8]` with buf: &[u8; 12]
+    rg_ = const_range(fl, t['args'][1]) if len(t['args']) > 1 else None
+    n_ = static_slice_len(fl, t['args'][0]) if rg_ is not None else None
+    if rg_ is not None and n_ is not None:
+        a_, e_ = rg_[0] or 0, rg_[1] if rg_[1] is not None else n_
+        if 0 <= a_ <= e_ <= n_:
+            return '%s[%d..%d]' % (root_name(fl, t['args'][0]), a_, e_), 'constant range within an array of %d elements' % n_
     base = root_name(fl, t['args'][0])
     idx_o = fl.origins(t['args'][1])
     # range aggregate?
